@@ -1007,7 +1007,12 @@ class FixedVectorSerializer(Generic[T, T_NP], TypeSerializer[list[T], np.object_
         return [self.element_serializer.read(stream) for _ in range(self._length)]
 
     def read_numpy(self, stream: CodedInputStream) -> np.object_:
-        raise NotImplementedError("Internal error: expected this to be a subarray")
+        # a fixed vector that is a field of an array element (a subarray of a
+        # structured dtype)
+        return cast(
+            np.object_,
+            [self.element_serializer.read_numpy(stream) for _ in range(self._length)],
+        )
 
     def is_trivially_serializable(self) -> bool:
         return self.element_serializer.is_trivially_serializable()
@@ -1338,7 +1343,15 @@ class RecordSerializer(TypeSerializer[T, np.void]):
         )
 
     def read_numpy(self, stream: CodedInputStream) -> np.void:
-        return cast(np.void, self._read(stream))
+        # the fields of an array element are read in their NumPy form too
+        # (a nested record as a tuple, not as an instance of its class)
+        return cast(
+            np.void,
+            tuple(
+                serializer.read_numpy(stream)
+                for _, serializer in self._field_serializers
+            ),
+        )
 
 
 # Only used in the header
